@@ -11,6 +11,7 @@ from ..r_hygiene import rule_hygiene as _rule_hygiene
 from ..r_rings import rule_tentative_rollback as _rule_rollback
 from ..r_construct import rule_protocol_dunders as _rule_dunders
 from ..r_round9 import rule_back_connection_guard as _r9_back
+from ..r_round10 import rule_shallow_copy_of_cached_nested as _r10_sh
 
 LEVEL = 'other'
 
@@ -43,3 +44,4 @@ def run(ck, repo):
     _rule_rollback(ck, repo, 'C13.D4-tentative-rollback', ['chython.algorithms.standardize.resonance:Resonance.fix_resonance'])
     _rule_dunders(ck, repo, 'C13.D0-container-protocols', ['chython.containers.molecule:MoleculeContainer'])
     _r9_back(ck, repo, 'C13.D6-back-connection-guard')
+    _r10_sh(ck, repo, 'C13.D7-shallow-copy-of-cached')
